@@ -4,16 +4,35 @@ pub use methods::dispatch as sort;
 
 #[dispatch]
 mod methods {
-    use crate::CelValue;
+    use crate::{CelError, CelResult, CelValue};
 
-    fn sort(mut this: Vec<CelValue>) -> Vec<CelValue> {
+    fn sort(mut this: Vec<CelValue>) -> CelResult<Vec<CelValue>> {
+        // Every element has to be ordered against the first one (and the first
+        // against itself, which rules out NaN): elements of unrelated types or
+        // NaN have no order, and a comparator that is not a total order makes
+        // the sort return garbage or panic.
+        if let Some(first) = this.first() {
+            for v in this.iter() {
+                match first.clone().ord(v.clone()) {
+                    Ok(Some(_)) => {}
+                    _ => {
+                        return Err(CelError::value(
+                            "sort() requires mutually comparable elements",
+                        ))
+                    }
+                }
+            }
+        }
+
         this.sort_by(|a, b| {
             a.clone()
                 .ord(b.clone())
-                .unwrap_or(Some(std::cmp::Ordering::Less))
-                .unwrap_or(std::cmp::Ordering::Less)
+                .ok()
+                .flatten()
+                .unwrap_or(std::cmp::Ordering::Equal)
         });
-        this
+
+        Ok(this)
     }
 
     mod internal {}
